@@ -329,6 +329,9 @@ func runCheck(id, tier string) int {
 					cj.Entry = j.Confirm
 					if strings.HasPrefix(aid, "race@") {
 						cj.Entry = "VerifRaceStress"
+						if j.RaceConfirm != "" {
+							cj.Entry = j.RaceConfirm
+						}
 					}
 					var out *NativeResult
 					if strings.HasPrefix(aid, "race@") {
@@ -510,7 +513,7 @@ func readableModel(m map[string]string) map[string]string {
 
 // scheduleDependent: assertion ids whose counterexamples depend on the goroutine schedule, not only on the input.
 func scheduleDependent(aid string) bool {
-	return strings.Contains(aid, "noleak") || strings.HasPrefix(aid, "deadlock@") || strings.HasPrefix(aid, "race@") || strings.Contains(aid, "ctxerr") || strings.HasPrefix(aid, "C10.same/")
+	return strings.Contains(aid, "noleak") || strings.HasPrefix(aid, "deadlock@") || strings.HasPrefix(aid, "race@") || strings.HasPrefix(aid, "C13.conc") || strings.Contains(aid, "ctxerr") || strings.HasPrefix(aid, "C10.same/")
 }
 
 // evidenceBase: /verif, except in development runs against a scratch copy (VERIF_REPO), whose evidence and
